@@ -118,6 +118,15 @@ fn main() {
                 vh::c09::run(seed, &tier, shard, nshards)
             }
         }
+        "c13mt" => {
+            let prop = get("prop", "C13");
+            if let Some(path) = kv.get("replay") {
+                let v: serde_json::Value = serde_json::from_str(&std::fs::read_to_string(path).unwrap()).unwrap();
+                vh::c13mt::replay(&prop, serde_json::from_value(v["cfg"].clone()).unwrap())
+            } else {
+                vh::c13mt::run(&prop, seed, &tier, shard, nshards)
+            }
+        }
         "c07" => vh::c07::run(seed, &tier, shard, nshards),
         "c10" => vh::c10::run(seed, &tier, shard, nshards),
         "c12" => vh::c12::run(seed, &tier, shard, nshards),
